@@ -255,6 +255,19 @@ def run(res, tier):
         for fn in facts.methods_of(cls):
             nt += omp.check_capture_lifetime(facts, fn, res, pid_rule="C15.3")
     res.floor("C15.3", nt, 14, "omp tasks")
+    # the per-worker kernel vector indexed by the worker id inside tasks is grown to the worker count before submission
+    import c03
+    import stages
+    for cls in OMP_CLASSES:
+        ex = stages.ExecutorSummary(facts, cls)
+        before = len(res.violations)
+        c03.kernels_sized(facts, ex, res, "omp_get_max_threads")
+        for v in res.violations[before:]:
+            v["rule"] = v["rule"].replace("C03.d", "C15.3")
+            v["msg"] += " (tasks index the vector with the executing worker's id: out-of-bounds access)"
+        for i in res.instances:
+            if i["rule"].startswith("C03.d"):
+                i["rule"] = i["rule"].replace("C03.d", "C15.3")
     cmap = effects.container_map(facts)
     for fn, sr, call, op, slots in coherence.wrapper_kernel_calls(facts, cmap):
         c02.fill_idiom(facts, fn, sr, call, op, slots, res, R="C15.3.array-fill")
